@@ -2,7 +2,11 @@
 // choice point owned by the explorer, which enumerates all alternatives instead of sampling.
 package vrand
 
-import "sync"
+import (
+	"sync"
+
+	"verif/mc/explore/vsched"
+)
 
 var (
 	mu     sync.Mutex
@@ -57,3 +61,35 @@ func Perm(n int) []int {
 func Int31n(n int32) int32        { return int32(Intn(int(n))) }
 func Int63n(n int64) int64        { return int64(Intn(int(n))) }
 func Shuffle(int, func(int, int)) {}
+
+// ---- generator objects ----------------------------------------------------------------------------------------------
+// rand.New(rand.NewSource(..)) gives a generator that, unlike the package-level functions, is NOT safe for concurrent use.
+// The shim keeps that contract visible to the controlled scheduler: every method of a *Rand is a WRITE access to the
+// generator object, so two threads that reach the same generator without synchronisation are reported as a data race.
+// The values still come from the explorer's script.
+
+type Source interface{ Int63() int64 }
+
+type scriptedSource struct{}
+
+func (scriptedSource) Int63() int64 { return Int63() }
+
+func NewSource(int64) Source { return scriptedSource{} }
+
+type Rand struct{ _ int }
+
+func New(Source) *Rand { return &Rand{} }
+
+func (r *Rand) touch() { vsched.AccessAt("lib.math/rand.Rand", r, true) }
+
+func (r *Rand) Intn(n int) int       { r.touch(); return Intn(n) }
+func (r *Rand) Int() int             { r.touch(); return Int() }
+func (r *Rand) Int63() int64         { r.touch(); return Int63() }
+func (r *Rand) Float64() float64     { r.touch(); return Float64() }
+func (r *Rand) Perm(n int) []int     { r.touch(); return Perm(n) }
+func (r *Rand) Int31n(n int32) int32 { r.touch(); return Int31n(n) }
+func (r *Rand) Int63n(n int64) int64 { r.touch(); return Int63n(n) }
+func (r *Rand) Seed(int64)           { r.touch() }
+func (r *Rand) Shuffle(n int, swap func(int, int)) {
+	r.touch()
+}
